@@ -67,7 +67,7 @@ func (c *Ctx) lettersOf(g *ssa.Function) map[ssa.Instruction][]string {
 		case ws.isFmt || ws.konst:
 			l = ws.format
 		default:
-			l = "\x00<dyn>"
+			l = "%s" // some text: the same symbol as a %s verb
 			v := ws.arg
 			if ex, ok := v.(*ssa.Extract); ok {
 				v = ex.Tuple
@@ -478,6 +478,24 @@ func (c *Ctx) checkShape(fn *ssa.Function, key string, want *gExpr, what string)
 	}
 	ok, word := c.outputNFA(fn, sbv).includedIn(want)
 	c.Check(ok, key, pos, what, fmt.Sprintf("%s can write %q, which is not of the shape %s", fn.Name(), strings.Join(word, ""), want.String()))
+}
+
+// symbols lists the distinct symbols on the automaton's edges.
+func (n *gNFA) symbols() []string {
+	seen := map[string]bool{}
+	for _, es := range n.expanded().edges {
+		for _, e := range es {
+			if e.label != "" {
+				seen[e.label] = true
+			}
+		}
+	}
+	var out []string
+	for s := range seen {
+		out = append(out, s)
+	}
+	sort.Strings(out)
+	return out
 }
 
 var _ = token.NoPos
